@@ -9,7 +9,7 @@ cd /tmp/wt_clean && git checkout -q -- . && git clean -fdq
 cd /tmp/hdev && CARGO_TARGET_DIR=/verif/build/harness_dev cargo build --release --offline --bin cv 2>&1 | grep -E "^error" -A5
 for p in "$@"; do
   for i in $(seq 0 15); do
-    /verif/build/harness_dev/release/cv run $p --tier quick --seed ${SEED:-0} --shard $i/16 --out /tmp/hdev_out_$p.$i.json --known /verif/known_findings.json &
+    /verif/build/harness_dev/release/cv run $p --tier ${TIER:-quick} --seed ${SEED:-0} --shard $i/16 --out /tmp/hdev_out_$p.$i.json --known /verif/known_findings.json &
   done; wait
   python3 - "$p" <<'PY'
 import json,sys,glob
